@@ -8,39 +8,64 @@
   Ghost vocabulary: `g.wlog` (the batches the engine applied, in commit order), `g.done` (answers), `g.spans` (for each
   answered request the piece `wlog[beginLog, endLog)` applied while it was in flight);
   `keyState g0 l k` = (revision, deleted?) of `k`'s revision record after the applied writes `l`;
-  `Refuses st rev` = that state refuses a create stamped `rev`: live, or deleted at / above `rev`.
+  `Live st` = the key is live in that state; `Refuses st rev` = live, or deleted at / above `rev`.
+  /repo 42e5238: a deletion record at or ABOVE the create's revision (the repair was dealt its revision after the
+  create; or the allocator lags) is answered with an ERROR, no longer with "condition failed": the key is absent, the
+  condition did not fail. `Cfg.creatorTombAboveIsCf = true` is the creator between eb6d1d1 and that fix (refutation).
 -/
 import KB.Lemmas.CreatorLoop
 namespace KB.C01Repair
 open KB KB.SysStore KB.CreatorLoop
 
-/-- **A failed condition of a create is justified.** In every reachable state, for every create answered
-"condition failed": at some moment `n` of the log between the request's begin and its answer the key's revision record
-was LIVE or a deletion at / above the create's revision — or the creator gave up after its fourth compare-and-swap,
-and then at least 4 writes to that key were applied while the request was in flight. In particular a repair that
-rewrites N|deleted → M|deleted with M below the create's revision never, by itself, produces "condition failed"
-(`create_cf_names_the_interferer`). (`hb`: revisions are uint64, as in `C01.chain`.) -/
+/-- **A failed condition of a create means the key was LIVE.** In every reachable state, for every create answered
+"condition failed": at some moment `n` of the log between the request's begin and its answer the key was live — or the
+creator gave up after its fourth compare-and-swap, and then at least 4 writes to that key were applied while the
+request was in flight. Deletion records — below the create's revision (eb6d1d1: evaluated again) or at / above it
+(42e5238: an error) — never produce "condition failed". (`hb`: revisions are uint64, as in `C01.chain`.) -/
 theorem create_cf_justified_under_repair {g0 g : G} (h0 : C02.Init g0) (hs : C02.StoreOK g0) (hr : Reachable g0 g)
-    (hb : g.dealt < 2 ^ 64) (hnew : g0.cfg.creatorNoReeval = false)
+    (hb : g.dealt < 2 ^ 64) (hnew : g0.cfg.creatorNoReeval = false) (hfix : g0.cfg.creatorTombAboveIsCf = false)
+    (d : Done) (hd : d ∈ g.done) (k v : Bytes) (hk : d.kind = .create k v)
+    (hdr : Nat) (kv : Option (Bytes × Bytes × Nat)) (hres : d.res = .condFailed hdr kv) :
+    ∃ s ∈ g.spans, s.id = d.id ∧ s.rev = d.rev ∧ s.beginLog ≤ s.endLog ∧ s.endLog ≤ g.wlog.length ∧
+      ((∃ n, s.beginLog ≤ n ∧ n ≤ s.endLog ∧ Live (keyState g0 (g.wlog.take n) k)) ∨
+       4 ≤ rewrites k ((g.wlog.take s.endLog).drop s.beginLog)) := by
+  obtain ⟨s, hsm, h1, h2, h3, h4, h5⟩ := (JInv.reachable h0 hs hr hnew hb).dn d hd k v hdr kv hk hres
+  refine ⟨s, hsm, h1, h2, h3, h4, ?_⟩
+  rcases h5 with ⟨n, a, b, c⟩ | h5
+  · rw [hfix] at c
+    exact .inl ⟨n, a, b, c.live⟩
+  · exact .inr h5
+
+/-- The creator between eb6d1d1 and 42e5238 (`creatorTombAboveIsCf`): the weaker justification — live, OR deleted at /
+above the create's revision; the second alternative is what 42e5238 turned into an error
+(`old_creator_cf_when_repair_is_later` is the run that needs it). -/
+theorem create_cf_justified_before_42e5238 {g0 g : G} (h0 : C02.Init g0) (hs : C02.StoreOK g0) (hr : Reachable g0 g)
+    (hb : g.dealt < 2 ^ 64) (hnew : g0.cfg.creatorNoReeval = false) (hold : g0.cfg.creatorTombAboveIsCf = true)
     (d : Done) (hd : d ∈ g.done) (k v : Bytes) (hk : d.kind = .create k v)
     (hdr : Nat) (kv : Option (Bytes × Bytes × Nat)) (hres : d.res = .condFailed hdr kv) :
     ∃ s ∈ g.spans, s.id = d.id ∧ s.rev = d.rev ∧ s.beginLog ≤ s.endLog ∧ s.endLog ≤ g.wlog.length ∧
       ((∃ n, s.beginLog ≤ n ∧ n ≤ s.endLog ∧ Refuses (keyState g0 (g.wlog.take n) k) d.rev) ∨
-       4 ≤ rewrites k ((g.wlog.take s.endLog).drop s.beginLog)) :=
-  (JInv.reachable h0 hs hr hnew hb).dn d hd k v hdr kv hk hres
+       4 ≤ rewrites k ((g.wlog.take s.endLog).drop s.beginLog)) := by
+  obtain ⟨s, hsm, h1, h2, h3, h4, h5⟩ := (JInv.reachable h0 hs hr hnew hb).dn d hd k v hdr kv hk hres
+  refine ⟨s, hsm, h1, h2, h3, h4, ?_⟩
+  rcases h5 with ⟨n, a, b, c⟩ | h5
+  · rw [hold] at c
+    exact .inl ⟨n, a, b, c.refuses⟩
+  · exact .inr h5
 
-/-- The same, naming the interferer: the key already refused the create when the request began, or one of the writes
-applied while it was in flight made the key live / deleted it at or above the create's revision, or 4 writes to the key
-were applied meanwhile. Deletion records below the create's revision alone (fewer than 4) are not a reason. -/
+/-- The same, naming the interferer: the key was already live when the request began, or one of the writes applied while
+it was in flight made it live, or 4 writes to the key were applied meanwhile. Deletions (rewrites by the repair of an
+uncertain delete included, whatever their revision) are not a reason. -/
 theorem create_cf_names_the_interferer {g0 g : G} (h0 : C02.Init g0) (hs : C02.StoreOK g0) (hr : Reachable g0 g)
-    (hb : g.dealt < 2 ^ 64) (hnew : g0.cfg.creatorNoReeval = false)
+    (hb : g.dealt < 2 ^ 64) (hnew : g0.cfg.creatorNoReeval = false) (hfix : g0.cfg.creatorTombAboveIsCf = false)
     (d : Done) (hd : d ∈ g.done) (k v : Bytes) (hk : d.kind = .create k v)
     (hdr : Nat) (kv : Option (Bytes × Bytes × Nat)) (hres : d.res = .condFailed hdr kv) :
     ∃ s ∈ g.spans, s.id = d.id ∧ s.rev = d.rev ∧
-      (Refuses (keyState g0 (g.wlog.take s.beginLog) k) d.rev ∨
-       (∃ w ∈ (g.wlog.take s.endLog).drop s.beginLog, w.key = k ∧ (w.val ≠ none ∨ d.rev ≤ w.rev)) ∨
+      (Live (keyState g0 (g.wlog.take s.beginLog) k) ∨
+       (∃ w ∈ (g.wlog.take s.endLog).drop s.beginLog, w.key = k ∧ w.val ≠ none) ∨
        4 ≤ rewrites k ((g.wlog.take s.endLog).drop s.beginLog)) := by
-  obtain ⟨s, hsm, h1, h2, h3, h4, h5⟩ := create_cf_justified_under_repair h0 hs hr hb hnew d hd k v hk hdr kv hres
+  obtain ⟨s, hsm, h1, h2, h3, h4, h5⟩ :=
+    create_cf_justified_under_repair h0 hs hr hb hnew hfix d hd k v hk hdr kv hres
   refine ⟨s, hsm, h1, h2, ?_⟩
   rcases h5 with ⟨n, hbn, hne, href⟩ | h5
   · -- the log up to n = the log up to the begin ++ the piece in between
@@ -62,7 +87,7 @@ theorem create_cf_names_the_interferer {g0 g : G} (h0 : C02.Init g0) (hs : C02.S
       exact href
     · right; left
       rw [hsplit] at href
-      obtain ⟨p, t, hst, hpt⟩ := href
+      obtain ⟨p, hst⟩ := href
       unfold keyState at hst
       cases hl : SysStore.lastW (g.wlog.take s.beginLog ++ (g.wlog.take n).drop s.beginLog) k with
       | none =>
@@ -88,11 +113,9 @@ theorem create_cf_names_the_interferer {g0 g : G} (h0 : C02.Init g0) (hs : C02.S
           have := List.mem_filter.mp (List.mem_of_getLast? hb')
           exact ⟨this.1, by simpa using this.2⟩
         refine ⟨q, hsub q hq.1, hq.2, ?_⟩
-        rcases hpt with ht | hle
-        · left
-          rw [← hst.2] at ht
-          intro e; rw [e] at ht; simp at ht
-        · right; rw [hst.1]; exact hle
+        intro e
+        have := hst.2
+        rw [e] at this; simp at this
   · exact .inr (.inr h5)
 
 /-- In KB.Sys the index record of a key never vanishes (compaction is not an action of this LTS: that race is
@@ -143,7 +166,14 @@ def readAt (g : G) (k : Bytes) : Option (Bytes × Nat) :=
   | .notFound _ => none
 
 /-- the creator before eb6d1d1 -/
-def gOld : G := { cfg := { creatorNoReeval := true } }
+def gOld : G := { cfg := { creatorNoReeval := true, creatorTombAboveIsCf := true } }
+
+/-- the creator between eb6d1d1 and 42e5238 -/
+def gMid : G := { cfg := { creatorTombAboveIsCf := true } }
+
+/-- a second create of a key that is live -/
+def overLive : List Action :=
+  [ .begin 1 (.create k [1]), .step 1 .none, .step 1 .none, .seq, .begin 3 (.create k [2]), .step 3 .none, .step 3 .none ]
 
 theorem init_empty : C02.Init {} ∧ C02.StoreOK {} :=
   ⟨⟨⟨rfl, rfl, rfl, rfl, rfl⟩, rfl, rfl, rfl⟩, ⟨[], rfl, List.Pairwise.nil, by simp, by decide⟩⟩
@@ -205,26 +235,56 @@ theorem old_creator_not_justified :
 
 set_option maxRecDepth 1000000 in
 /-- **When the repair was dealt its revision after the create (C = 3 < M = 4)** the rewritten record is a deletion
-ABOVE the create's revision: the create is answered "condition failed" also by the repaired creator — and rightly
-so: writing 3 over 4|deleted would break the per-key revision order (C02). The justification the theorem gives is the
-moment after the rewrite (`n = 3`): deleted at 4 ≥ 3. -/
-theorem create_cf_when_repair_is_later :
-    let g := run {} (pre ++ raceLate)
+ABOVE the create's revision: nothing can be written below it (the per-key revision order, C02), but the key is absent
+and stays so — since /repo 42e5238 the create is answered with an ERROR (the client tries again and is dealt a fresh
+revision), not with "condition failed". Nothing is applied by it, its revision 3 is still reported to the sequencer
+(an invalid, not uncertain, slot: the read revision passes it), and the key reads "absent" in every state of the run. -/
+theorem create_error_when_repair_is_later :
+    let g1 := run {} pre
+    let g := run g1 raceLate
+    g.done.map (fun d => (d.id, d.res)) = [(1, .ok 1), (2, .error .uncertain), (3, .error .other)] ∧
+    g.wlog.map (fun w => (w.rev, w.val, w.exp)) = [(1, some [1], .absent), (2, none, .rev 1), (4, none, .rev 2)] ∧
+    g.slots.map (fun w => (w.rev, w.valid, w.uncertain)) = [(4, true, false), (3, false, false)] ∧
+    (run g [.seq, .seq]).committed = 4 ∧ (run g [.seq, .seq]).retryQ = [] ∧ (run g [.seq, .seq]).slots = [] ∧
+    (∀ i, i ≤ raceLate.length → readAt (run g1 (raceLate.take i)) k = none) := by
+  decide
+
+set_option maxRecDepth 1000000 in
+/-- **Refutation for the creator before 42e5238** (`gMid`). Same schedule: "condition failed" at revision 3 although the
+key reads "absent" in every state of the run and only the delete and its rewrite were ever applied to it: at no moment
+of the request's span was the key live, and one write (not 4) was applied meanwhile — the conclusion of
+`create_cf_justified_under_repair` fails for it (only the weaker `create_cf_justified_before_42e5238` holds: deleted
+at 4 ≥ 3 at the moment after the rewrite). -/
+theorem old_creator_cf_when_repair_is_later :
+    let g1 := run gMid pre
+    let g := run g1 raceLate
     g.done.map (fun d => (d.id, d.res)) = [(1, .ok 1), (2, .error .uncertain), (3, .condFailed 3 none)] ∧
+    (∀ i, i ≤ raceLate.length → readAt (run g1 (raceLate.take i)) k = none) ∧
+    g.wlog.map (fun w => (w.rev, w.val, w.exp)) = [(1, some [1], .absent), (2, none, .rev 1), (4, none, .rev 2)] ∧
     g.spans = [⟨1, 1, 0, 1⟩, ⟨2, 2, 1, 2⟩, ⟨3, 3, 2, 3⟩] ∧
-    keyState {} (g.wlog.take 3) k = some (4, true) ∧ Refuses (keyState {} (g.wlog.take 3) k) 3 ∧
-    ¬ Refuses (keyState {} (g.wlog.take 2) k) 3 := by
+    ¬ Live (keyState gMid (g.wlog.take 2) k) ∧ ¬ Live (keyState gMid (g.wlog.take 3) k) ∧
+    rewrites k ((g.wlog.take 3).drop 2) = 1 ∧
+    keyState gMid (g.wlog.take 3) k = some (4, true) ∧ Refuses (keyState gMid (g.wlog.take 3) k) 3 := by
   decide
 
 /-! Non-vacuity of the implications: the hypotheses of `create_cf_justified_under_repair` /
-`create_cf_names_the_interferer` hold of the late-repair run (a reachable state with a create answered "condition
-failed"); those of `recreate_branch_needs_compaction` of a state with a request in flight. -/
+`create_cf_names_the_interferer` hold of a run in which a live key is created again (a reachable state with a create
+answered "condition failed", the repaired creator); those of `create_cf_justified_before_42e5238` of the late-repair
+run of the creator before 42e5238; those of `recreate_branch_needs_compaction` of a state with a request in flight. -/
 set_option maxRecDepth 1000000 in
 example : ∃ (g0 g : G) (d : Done) (k' v : Bytes) (hdr : Nat) (kv : Option (Bytes × Bytes × Nat)),
-    C02.Init g0 ∧ C02.StoreOK g0 ∧ Reachable g0 g ∧ g.dealt < 2 ^ 64 ∧ g0.cfg.creatorNoReeval = false ∧ d ∈ g.done ∧
-      d.kind = .create k' v ∧ d.res = .condFailed hdr kv :=
-  ⟨{}, run {} (pre ++ raceLate), ⟨3, .create k [2], .condFailed 3 none, 3, 2, 4⟩, k, [2], 3, none,
-    init_empty.1, init_empty.2, ⟨_, rfl⟩, by decide, rfl, by decide, rfl, rfl⟩
+    C02.Init g0 ∧ C02.StoreOK g0 ∧ Reachable g0 g ∧ g.dealt < 2 ^ 64 ∧ g0.cfg.creatorNoReeval = false ∧
+      g0.cfg.creatorTombAboveIsCf = false ∧ d ∈ g.done ∧ d.kind = .create k' v ∧ d.res = .condFailed hdr kv :=
+  ⟨{}, run {} overLive, ⟨3, .create k [2], .condFailed 2 none, 2, 1, 2⟩, k, [2], 2, none,
+    init_empty.1, init_empty.2, ⟨_, rfl⟩, by decide, rfl, rfl, by decide, rfl, rfl⟩
+
+set_option maxRecDepth 1000000 in
+example : ∃ (g0 g : G) (d : Done) (k' v : Bytes) (hdr : Nat) (kv : Option (Bytes × Bytes × Nat)),
+    C02.Init g0 ∧ C02.StoreOK g0 ∧ Reachable g0 g ∧ g.dealt < 2 ^ 64 ∧ g0.cfg.creatorNoReeval = false ∧
+      g0.cfg.creatorTombAboveIsCf = true ∧ d ∈ g.done ∧ d.kind = .create k' v ∧ d.res = .condFailed hdr kv :=
+  ⟨gMid, run gMid (pre ++ raceLate), ⟨3, .create k [2], .condFailed 3 none, 3, 2, 4⟩, k, [2], 3, none,
+    ⟨⟨rfl, rfl, rfl, rfl, rfl⟩, rfl, rfl, rfl⟩, ⟨[], rfl, List.Pairwise.nil, by simp, by decide⟩, ⟨_, rfl⟩, by decide,
+    rfl, rfl, by decide, rfl, rfl⟩
 
 set_option maxRecDepth 1000000 in
 example : ∃ (g0 g : G) (c : Client), C02.Init g0 ∧ C02.StoreOK g0 ∧ Reachable g0 g ∧ g.dealt < 2 ^ 64 ∧
@@ -240,6 +300,8 @@ example : ∃ (g0 g : G) (c : Client), C02.Init g0 ∧ C02.StoreOK g0 ∧ Reacha
 #print axioms create_over_repaired_deletion_succeeds
 #print axioms old_creator_cf_on_still_deleted_key
 #print axioms old_creator_not_justified
-#print axioms create_cf_when_repair_is_later
+#print axioms create_cf_justified_before_42e5238
+#print axioms create_error_when_repair_is_later
+#print axioms old_creator_cf_when_repair_is_later
 
 end KB.C01Repair
